@@ -49,7 +49,7 @@ DT = st.one_of(
 
 @st.composite
 def edits(draw, is_tree):
-    kinds = ["modify", "modify", "delete", "add", "touch", "ln", "add", "delete", "modify"]
+    kinds = ["modify", "ln", "delete", "add", "touch", "ln", "add", "delete", "modify"]
     if not is_tree:
         kinds = ["modify", "delete", "touch", "ln", "modify"]
     out = []
@@ -71,7 +71,7 @@ def edits(draw, is_tree):
             e["prune"] = draw(st.booleans())
         if k == "ln":
             e["how"] = draw(st.sampled_from(["hard", "sym"]))
-            e["same"] = draw(st.booleans())
+            e["same"] = draw(st.sampled_from([True, False, True]))
         out.append(e)
     return out
 
@@ -500,7 +500,7 @@ def _short(v):
 
 def run(ctx):
     mf = 8 if ctx.tier == "quick" else 16
-    ctx.run_given(cases(max_files=mf), run_case, ctx.n(quick=150, thorough=1500))
+    ctx.run_given(cases(max_files=mf), run_case, ctx.n(quick=120, thorough=1500))
 
 
 def replay(case, ctx):
